@@ -274,8 +274,26 @@ func (t *qt) words(juxt func() bool) []string {
 	case "fe":
 		return append(append([]string{t.toks[0], t.toks[1], "("}, t.kids[0].words(juxt)...), ")")
 	case "and":
-		l, r := t.kids[0].words(juxt), t.kids[1].words(juxt)
-		if juxt != nil && juxtOK(t.kids[0], t.kids[1]) && juxt() {
+		var d bool
+		if juxtReplay != nil { // a layout variant: the same choices as the original, in the same (pre-order) sequence
+			d = juxtReplay[0]
+			juxtReplay = juxtReplay[1:]
+		} else {
+			d = juxt != nil && juxtOK(t.kids[0], t.kids[1]) && juxt()
+			juxtRecord = append(juxtRecord, d)
+		}
+		k0, k1 := t.kids[0], t.kids[1]
+		if d {
+			// parentheses directly around an operand of a juxtaposition are outside C09 (no explicitly written operator)
+			for k0.kind == "par" {
+				k0 = k0.kids[0]
+			}
+			for k1.kind == "par" {
+				k1 = k1.kids[0]
+			}
+		}
+		l, r := k0.words(juxt), k1.words(juxt)
+		if d {
 			return append(l, r...)
 		}
 		return append(append(l, pick([]string{"AND", "AND", "and", "And"})), r...)
@@ -306,6 +324,8 @@ func (t *qt) words(juxt func() bool) []string {
 	}
 	panic("kind")
 }
+
+var juxtRecord, juxtReplay []bool
 
 // juxtaposition is possible where the left operand ends in an expression and the right one starts with a term token
 func lastTermEnds(t *qt) bool {
@@ -657,14 +677,21 @@ func genLayout(n int) {
 			emitQ(join(cw, 0), df, fmt.Sprintf("rel=C09case;g=%d;role=b", g))
 			g++
 		}
-		// redundant parentheses: if the original parses the variant parses to the same tree
+		// redundant parentheses: if the original parses the variant parses to the same tree; juxtapositions stay juxtapositions
 		if valid {
 			allowNumPar = true
 			t2 := addPars(t, 0.3)
 			allowNumPar = false
-			t2 = par(t2)
-			emitQ(join(t.words(nil), 0), df, fmt.Sprintf("rel=C09par;g=%d;role=a", g))
-			emitQ(join(t2.words(nil), 0), df, fmt.Sprintf("rel=C09par;g=%d;role=b", g))
+			if rng.Intn(2) == 0 {
+				t2 = par(t2)
+			}
+			juxtRecord, juxtReplay = nil, nil
+			a := join(t.words(func() bool { return rng.Intn(3) == 0 }), 0)
+			juxtReplay = append([]bool{}, juxtRecord...)
+			b := join(t2.words(nil), 0)
+			juxtRecord, juxtReplay = nil, nil
+			emitQ(a, df, fmt.Sprintf("rel=C09par;g=%d;role=a", g))
+			emitQ(b, df, fmt.Sprintf("rel=C09par;g=%d;role=b", g))
 			g++
 		}
 	}
